@@ -299,6 +299,16 @@ class ServerDriver:
                 self.trace.append(('Ret', _copy(await aw(sio.get_session(o[1], namespace=o[2])))))
             elif k == 'save_session':
                 await aw(sio.save_session(o[1], _copy(o[2]), namespace=o[3]))
+            elif k == 'session_replace':
+                # with session(sid) as s: s.clear(); s.update(new)  -- keys are REMOVED inside the block
+                if self.mode == 'sync':
+                    with sio.session(o[1], namespace=o[2]) as s:
+                        s.clear()
+                        s.update(_copy(o[3]))
+                else:
+                    async with sio.session(o[1], namespace=o[2]) as s:
+                        s.clear()
+                        s.update(_copy(o[3]))
             elif k == 'session_set':
                 if self.mode == 'sync':
                     with sio.session(o[1], namespace=o[2]) as s:
@@ -434,6 +444,9 @@ def c_op(o, table=()):
         return '(ApiGetSession %s %s)' % (cstr(o[1]), ons(o[2]))
     if k == 'save_session':
         return '(ApiSaveSession %s %s %s)' % (cstr(o[1]), pv(o[2]), ons(o[3]))
+    if k == 'session_replace':
+        # in the model: the block's net effect, i.e. the session becomes exactly the new dict
+        return '(ApiSaveSession %s %s %s)' % (cstr(o[1]), pv(o[3]), ons(o[2]))
     if k == 'session_set':
         return '(ApiSessionSet %s %s %s %s)' % (cstr(o[1]), ons(o[2]), cstr(o[3]), pv(o[4]))
     raise ValueError(o)
